@@ -51,6 +51,17 @@ def mutants(path, ops):
                 for m in re.finditer(re.escape(a), l):
                     # skip generics / shifts
                     out.append(("cmp", i, l[:m.start()] + b + l[m.end():], f"{a.strip()} -> {b.strip()}"))
+        if "bool" in ops and re.search(r"\b(if|while|else if)\b", l) and "=>" not in l:
+            for a, b in ((" && ", " || "), (" || ", " && ")):
+                for m in re.finditer(re.escape(a), l):
+                    out.append(("bool", i, l[:m.start()] + b + l[m.end():], f"{a.strip()} -> {b.strip()}"))
+        if "const" in ops and re.search(r"\b(if|while|else if)\b", l) and "=>" not in l:
+            for a, b in ((" + 1 ", " + 2 "), (" + 2 ", " + 1 "), (" - 1 ", " - 2 "), (" + 1)", " + 2)"), (" + 2)", " + 1)")):
+                for m in re.finditer(re.escape(a), l):
+                    out.append(("const", i, l[:m.start()] + b + l[m.end():], f"{a.strip()} -> {b.strip()}"))
+        if "flag" in ops and re.match(r"^\s*[A-Za-z_][\w\.]* = (true|false);\s*$", l) and "let " not in l:
+            nl = l.replace("= true;", "= FALSE;").replace("= false;", "= true;").replace("= FALSE;", "= false;")
+            out.append(("flag", i, nl, "flag flipped"))
         if "try" in ops and re.match(r"^\s*[A-Za-z_][\w\.\(\)&:, \*]*\)\?;\s*$", l) and "let " not in l and "=" not in l:
             out.append(("try", i, re.sub(r"^(\s*)(.*)\?;\s*$", r"\1let _ = \2;", l), "error ignored"))
         if "persist" in ops and re.match(r"^\s*self\.persist\(\)\?;\s*$", l):
